@@ -175,10 +175,71 @@ theorem C17_touched_in_own_bucket (e : Env) (enc : Bytes → Bytes) (hr : RootOk
     (hq : covers e t.tgt q = true) : Allowed e enc op t.acc q :=
   (plan_allowed e enc hr he op hop t ht).allowed q hq
 
+/-! ## uploads bound to a bucket and a key (41e1cf2) -/
+
+/-- the operations that address an existing upload, with the bucket, the key and the upload id they are addressed to -/
+def uploadOpAddr : Op → Option (Bytes × Bytes × Bytes)
+  | .uploadPart b k uid _ _ _ => some (b, k, uid)
+  | .uploadPartCopy _ _ _ b k uid _ _ => some (b, k, uid)
+  | .listParts b k uid => some (b, k, uid)
+  | .completeMultipartUpload b k uid _ _ => some (b, k, uid)
+  | .abortMultipartUpload b k uid => some (b, k, uid)
+  | _ => none
+
+/-- the table ends with an error and holds nothing but reads of the record of upload `u` -/
+def OnlyRecordRead (e : Env) (u : Bytes) (pl : Plan) : Prop :=
+  pl.err.isSome = true ∧ ∀ t ∈ pl.touches, t.acc = .read ∧ ∃ info, uploadInfoPath e u = .ok info ∧ t.tgt = .path info
+
+theorem onlyRecordRead_fail_nil (e : Env) (u : Bytes) (x : Err) : OnlyRecordRead e u (.fail [] x) :=
+  ⟨rfl, fun _ h => absurd h List.not_mem_nil⟩
+
+theorem onlyRecordRead_verifyUpload (e : Env) (u b k : Bytes) (cont : List Touch → Plan)
+    (h : (e.uploadRec u).allows b k = false) : OnlyRecordRead e u (verifyUpload e u b k [] cont) := by
+  unfold verifyUpload withPath
+  cases hi : uploadInfoPath e u with
+  | error x => exact onlyRecordRead_fail_nil e u x
+  | ok info =>
+    simp only [h, Bool.false_eq_true, if_false]
+    refine ⟨rfl, fun t ht => ?_⟩
+    simp only [Plan.fail, List.nil_append, List.mem_singleton] at ht
+    subst ht
+    exact ⟨rfl, info, hi, rfl⟩
+
+/-- **An upload bound to another bucket or key is not reached.** For each of upload_part, upload_part_copy, list_parts,
+    complete_multipart_upload and abort_multipart_upload, addressed to bucket `b` and key `k` with an id that names upload `u`:
+    when the record of `u` is an object whose `bucket` member is not exactly (byte for byte: `reports` ≠ `Reports`) the string
+    `b`, or whose `key` member is not exactly `k` (or is missing), the operation ends with an error and its may-touch table
+    holds nothing but the read of that record: no part file, no metadata file, no temporary file, no object, no directory, and
+    the record itself is neither written nor removed. All inputs, every root and CWD, no hypothesis on their shape. -/
+theorem C17_bound_upload_not_reached_from_other_bucket (e : Env) (enc : Bytes → Bytes) (op : Op) (b k uid u : Bytes)
+    (rb rk : Option Bytes) (hop : uploadOpAddr op = some (b, k, uid)) (hu : parseUuid uid = some u)
+    (hrec : e.uploadRec u = .obj rb rk) (hne : rb ≠ some b ∨ rk ≠ some k) :
+    OnlyRecordRead e u (plan e enc op) := by
+  have hallow : (e.uploadRec u).allows b k = false := by
+    rw [hrec]
+    simp only [UploadRec.allows, Bool.and_eq_false_iff, decide_eq_false_iff_not]
+    exact hne
+  cases op <;> simp only [uploadOpAddr, Option.some.injEq, Prod.mk.injEq, reduceCtorEq] at hop
+  all_goals
+    obtain ⟨rfl, rfl, rfl⟩ := hop
+    simp only [plan, hu]
+    repeat' first
+      | exact onlyRecordRead_fail_nil e u _
+      | exact onlyRecordRead_verifyUpload e u _ _ _ hallow
+      | split
+
+/-- the mutating entries and every entry that is not the record's: none (corollary in the words of the property) -/
+theorem C17_bound_upload_nothing_changed (e : Env) (enc : Bytes → Bytes) (op : Op) (b k uid u : Bytes)
+    (rb rk : Option Bytes) (hop : uploadOpAddr op = some (b, k, uid)) (hu : parseUuid uid = some u)
+    (hrec : e.uploadRec u = .obj rb rk) (hne : rb ≠ some b ∨ rk ≠ some k) (t : Touch) (ht : t ∈ (plan e enc op).touches) :
+    t.acc ≠ .create ∧ t.acc ≠ .write ∧ t.acc ≠ .delete ∧ t.acc ≠ .list := by
+  have h := ((C17_bound_upload_not_reached_from_other_bucket e enc op b k uid u rb rk hop hu hrec hne).2 t ht).1
+  rw [h]; decide
+
 /-! ## non-vacuity: realistic inputs meet the hypotheses and reach the main branches -/
 
 /-- root `/r`, CWD `/w` -/
-def exEnv : Env := ⟨[47, 119], [47, 114]⟩
+def exEnv : Env := { cwd := [47, 119], root := [47, 114] }
 
 example : RootOk exEnv.root := ⟨rfl, by decide⟩
 /-- key `./a//b/` in bucket `bk` is accepted and resolves to `/r/bk/a/b` -/
@@ -198,5 +259,26 @@ example : bucketNameFirstOk [98, 107] = true := by decide
 example : resolveAbsPath exEnv [97, 47, 46, 46, 47, 46, 46, 47, 120] = .ok [47, 114, 47, 120] := by rfl
 example : resolveAbsPath exEnv [47, 101, 116, 99] = .error .internalError := by rfl
 example : RootOk exEnv.cwd := ⟨rfl, by decide⟩
+
+
+/-- upload `u` (canonical id of 36 bytes) bound to bucket `bk`, key `mp`; the case variant `Bk`; another key -/
+def exU : Bytes := [49,49,49,49,49,49,49,49,45,50,50,50,50,45,52,51,51,51,45,56,52,52,52,45,53,53,53,53,53,53,53,53,53,53,53,53]
+def exEnvB : Env :=
+  { cwd := [47, 119], root := [47, 114],
+    uploadRec := fun u => if u = exU then .obj (some [98, 107]) (some [109, 112]) else .old }
+example : parseUuid exU = some exU := by decide
+/-- own bucket and key: abort reaches the part files and the record (5 entries, no input error) -/
+example : ((plan exEnvB id (.abortMultipartUpload [98, 107] [109, 112] exU)).touches.length,
+    (plan exEnvB id (.abortMultipartUpload [98, 107] [109, 112] exU)).err) = (5, none) := by decide
+/-- bucket `Bk`, key `MP`, another bucket: `NoSuchUpload` after the one read -/
+example : ((plan exEnvB id (.abortMultipartUpload [66, 107] [109, 112] exU)).touches.length,
+    (plan exEnvB id (.abortMultipartUpload [66, 107] [109, 112] exU)).err) = (1, some .noSuchUpload) := by decide
+example : ((plan exEnvB id (.completeMultipartUpload [98, 107] [77, 80] exU (some [1]) 0)).touches.length,
+    (plan exEnvB id (.completeMultipartUpload [98, 107] [77, 80] exU (some [1]) 0)).err) = (1, some .noSuchUpload) := by
+  decide
+example : ((plan exEnvB id (.listParts [120] [109, 112] exU)).touches.length,
+    (plan exEnvB id (.listParts [120] [109, 112] exU)).err) = (1, some .noSuchUpload) := by decide
+/-- a record of the old form binds nothing: the same request reaches the upload -/
+example : (plan exEnv id (.listParts [120] [109, 112] exU)).err = none := by decide
 
 end S3V.C17
